@@ -185,6 +185,50 @@ func c19(c *core.Ctx) {
 		c.Check("atomic/ForkManager.head", "atomic-only", okT && okUse && uses >= 2, token.NoPos, "ForkManager.head is an atomic.Value used only through its methods (%d uses)", uses)
 	})
 
+	c.Clause("C19.5", "publish after record, and no outsider on the engine's working state: saveNewBlock records the block in the replay guard before the fork manager can publish it as the head (lock-free readers take the head and ask the guard about it at once); and the RPC layer (package main/node) reaches the engine's account manager — a plain map cache and live account objects, written under chainLock only — through GetCanonicalAccount alone, which reads the store")
+	c.Run("publish-after-record", func() {
+		snb := c.Fn(cons + ".DPoVP.saveNewBlock")
+		sv := core.CallsIn(snb, c.Method("chain/txpool.TxGuard", "SaveBlock"))
+		uf := core.CallsIn(snb, c.Method(cons+".ForkManager", "UpdateFork"))
+		ok := len(sv) >= 1 && len(uf) >= 1
+		for _, u := range uf {
+			dom := false
+			for _, s := range sv {
+				if core.Dominates(s, u) {
+					dom = true
+				}
+			}
+			if !dom {
+				ok = false
+			}
+		}
+		c.Check("saveNewBlock:TxGuard.SaveBlock≺ForkManager.UpdateFork", "order", ok, snb.Pos(), "the block is in the replay guard before it can become the published head (%d SaveBlock / %d UpdateFork calls)", len(sv), len(uf))
+		// RPC: only the store-reading accessor of the engine's account manager
+		mgr := c.Named("chain/account.Manager")
+		n := 0
+		seq := map[string]int{}
+		for _, fn := range c.SrcFuncs {
+			if core.RelPkg(fn) != "main/node" || isTestHelper(c, fn) {
+				continue
+			}
+			for _, ci := range core.AllCalls(fn) {
+				o := core.CalleeObj(ci)
+				if o == nil {
+					continue
+				}
+				rn := recvNamed(o)
+				if rn == nil || !types.Identical(rn.Type(), mgr) {
+					continue
+				}
+				n++
+				name := shortFn(fn)
+				seq[name+o.Name()]++
+				c.Check("rpc→Manager."+o.Name()+"@"+name+seqSuffix(seq[name+o.Name()]), "who-may-call", o.Name() == "GetCanonicalAccount" || (o.Name() == "Stop" && name == "(*node.Node).Stop"), ci.Pos(), "%s calls account.Manager.%s on the engine's manager; the RPC layer may only use GetCanonicalAccount (a store read) — everything else touches the unlocked cache the chain thread is writing", name, o.Name())
+			}
+		}
+		c.Floor("rpc/manager-calls", n, 3)
+	})
+
 	c.Clause("C19.4", "the hand-over between the chain thread and the asynchronous store writer keeps what is pending: an entry of FileQueue.Index counts the acknowledged, not yet persisted writes of its key and leaves only with the last of them, so a reader on any thread gets the latest committed value while the writer is behind (the pending-index rules of C08.4, evaluated here as well)")
 	c.Run("pending-index", func() { c08PendingIndex(c) })
 
